@@ -50,6 +50,8 @@ class Module:
         with warnings.catch_warnings():
             warnings.simplefilter("ignore")
             self.tree = ast.parse(source, filename=path)
+        from .normalize import normalize
+        self.normal_form = normalize(name, self.tree)
         for parent in ast.walk(self.tree):
             for child in ast.iter_child_nodes(parent):
                 child._parent = parent
